@@ -217,5 +217,37 @@ def r11_4(ctx):
         (ctx.ok(construct, f.loc(), nontrivial=False) if ok else ctx.bad(construct, f"returns {ast.unparse(r[0].value) if r else None}", f.loc()))
 
 
+def r11_5(ctx):
+    """R11.5 the block delimiters are recognised before lines are skipped: in the line loop the begin/end marker handling
+    precedes the `in_deprecated_block and not load_deprecated` skip - otherwise the end marker is never seen and everything
+    after the block is ignored; the `is not set` inversion value is per line (re-initialised for every line)."""
+    repo = ctx.repo
+    f = repo.func(f"{CORE}:Kconfig._load_config")
+    loop = [n for n in ast.walk(f.node) if isinstance(n, ast.For) and "enumerate(f" in ast.unparse(n.iter)][0]
+    skip = [i for i, s in enumerate(loop.body) if isinstance(s, ast.If) and _conjuncts(s.test) == {"in_deprecated_block", "not load_deprecated"}]
+    delim = [i for i, s in enumerate(loop.body) if isinstance(s, ast.If) and any(d in ast.unparse(s.test) for d in ("DEP_OP_BEGIN", "DEP_OP_END"))]
+    construct = "Kconfig._load_config/block delimiters handled before the skip"
+    ok = bool(skip) and bool(delim) and max(delim) < min(skip)
+    (ctx.ok(construct, f.loc(loop.body[skip[0]])) if ok else
+     ctx.bad(construct, "lines are skipped before the end-of-block marker can be recognised: once inside the deprecated block the rest of the file is ignored",
+             f.loc(loop.body[skip[0]]) if skip else f.loc(loop)))
+    init = [n for n in ast.walk(loop) if isinstance(n, ast.Assign) and ast.unparse(n.targets[0]) == "_deprecated_unset_val" and ast.unparse(n.value) == "None"]
+    outside = [n for n in ast.walk(f.node) if isinstance(n, ast.Assign) and ast.unparse(n.targets[0]) == "_deprecated_unset_val" and not any(n is x for x in ast.walk(loop))]
+    construct = "Kconfig._load_config/the inverted-alias value of a `not set` line does not outlive the line"
+    uses = [n for n in ast.walk(loop) if isinstance(n, ast.Name) and n.id == "_deprecated_unset_val" and isinstance(n.ctx, ast.Load)]
+    ok = bool(init) and not outside and all(init[0].lineno < u.lineno for u in uses)
+    (ctx.ok(construct, f.loc(init[0]) if init else f.loc()) if ok else
+     ctx.bad(construct, "_deprecated_unset_val is not reset for every line: after `# CONFIG_OLD is not set` on an inverted alias later plain `is not set` lines load as y",
+             f.loc(outside[0]) if outside else f.loc(loop)))
+    d = repo.func("esp_kconfiglib.deprecated:DeprecatedOptions._parse_replacements")
+    construct = "DeprecatedOptions/old names are stored and looked up in one spelling"
+    cased = [q for q in ("_parse_replacements", "get_new_option", "is_inversion", "get_deprecated_option")
+             if any(isinstance(n, ast.Call) and isinstance(n.func, ast.Attribute) and n.func.attr in ("upper", "lower", "casefold")
+                    for n in ast.walk(repo.func(f"esp_kconfiglib.deprecated:DeprecatedOptions.{q}").node))]
+    ok = len(cased) in (0, 4) or set(cased) == {"_parse_replacements", "get_new_option", "is_inversion"}
+    (ctx.ok(construct, d.loc(), nontrivial=False) if ok else
+     ctx.bad(construct, f"case folding is applied in {cased} only: a lookup site that was missed compares the sdkconfig spelling with the folded table", d.loc()))
+
+
 def rules():
-    return [("R11.1", r11_1, 7), ("R11.2", r11_2, 2), ("R11.3", r11_3, 4), ("R11.4", r11_4, 6)]
+    return [("R11.1", r11_1, 7), ("R11.2", r11_2, 2), ("R11.3", r11_3, 4), ("R11.4", r11_4, 6), ("R11.5", r11_5, 3)]
